@@ -231,47 +231,21 @@ def documentedPostedB (t : Tables) (except : List (String × String)) : Bool :=
 /-- the full statement of sentence 3 over the complete regenerated table -/
 def DocumentedPostedAll : Prop := ∀ c ∈ T.classes, ∀ n ∈ c.documented, n ∈ T.postedNames c.name
 
-/-- documented_posted (partial).  Every notification name that the docstring of any class of
-Lib/defcon/objects documents is posted by some method of that class or of a class it inherits from (string
-literal, or `self.<x>NotificationName` resolved from the class the way Python resolves it) — except the
-recorded finding F25. -/
-theorem documented_posted_partial : ∀ c ∈ T.classes, ∀ n ∈ c.documented,
-    n ∈ T.postedNames c.name ∨ (c.name, n) ∈ neverPosted := by
+/-- **documented_posted.**  Every notification name that the docstring of any class of Lib/defcon/objects documents
+is posted by some method of that class or of a class it inherits from (string literal, or
+`self.<x>NotificationName` resolved from the class the way Python resolves it) — the full statement, over the
+complete table regenerated from the source on this run.  (It used to fail for `Layer.GlyphsChanged`: finding F25,
+repaired.) -/
+theorem documented_posted : DocumentedPostedAll := by
   have h : documentedPostedB T neverPosted = true := by decide +kernel
   intro c hc n hn
   simp only [documentedPostedB, List.all_eq_true, Bool.or_eq_true, decide_eq_true_eq] at h
-  exact h c hc n hn
+  rcases h c hc n hn with h | h
+  · exact h
+  · simp [neverPosted] at h
 
-/-- F25 witness: `Layer.GlyphsChanged` is documented and no method of `Layer` or `BaseObject` posts it. -/
-theorem documented_posted_violated : ¬ DocumentedPostedAll := by
-  intro h
-  have hc : (T.cls "Layer").isSome = true := by decide +kernel
-  obtain ⟨c, hcls⟩ := Option.isSome_iff_exists.mp hc
-  have hmem : c ∈ T.classes := List.mem_of_find?_eq_some hcls
-  have hname : c.name = "Layer" := by
-    have := List.find?_some hcls
-    simpa using this
-  have hdoc : "Layer.GlyphsChanged" ∈ c.documented := by
-    have : ((T.cls "Layer").map (fun c => decide ("Layer.GlyphsChanged" ∈ c.documented))) = some true := by
-      decide +kernel
-    rw [hcls] at this
-    simpa using this
-  have := h c hmem _ hdoc
-  rw [hname] at this
-  exact absurd this (by decide +kernel)
-
-/-- the recorded exceptions are exact: each is documented and really never posted -/
-theorem never_posted_exact : ∀ p ∈ neverPosted,
-    (∃ c ∈ T.classes, c.name = p.1 ∧ p.2 ∈ c.documented) ∧ p.2 ∉ T.postedNames p.1 := by
-  intro p hp
-  simp only [neverPosted, List.mem_singleton] at hp
-  subst hp
-  refine ⟨?_, by decide +kernel⟩
-  have : (T.classes.any fun c => decide (c.name = "Layer") && decide ("Layer.GlyphsChanged" ∈ c.documented)) = true := by
-    decide +kernel
-  simp only [List.any_eq_true, Bool.and_eq_true, decide_eq_true_eq] at this
-  obtain ⟨c, hc, h1, h2⟩ := this
-  exact ⟨c, hc, h1, h2⟩
+/-- the table is not empty: `Layer` documents `Layer.GlyphAdded`, and `newGlyph` posts it -/
+example : ((T.cls "Layer").map (fun c => decide ("Layer.GlyphAdded" ∈ c.documented))) = some true := by decide +kernel
 
 /-! ## Non-vacuity: concrete runs, and the criteria at work -/
 
